@@ -79,7 +79,7 @@ def cases(tier, seed):
                 shard_depth=24, name='latmio_dir_connected/cost/sc5/D_circular_w_symbolic/perm' + ''.join(map(str, p)))
     # mask
     for s, ms in ([('2K2', 1), ('2K2', 2), ('P4', 1)] if q else [(s, ms) for s in ('2K2', 'P4', 'C4', 'paw') for ms in (1, 2)]):
-        add(fn='randomize_graph_partial_und', kind='mask', n=4, sup=s, support=c01.und_from_edges(4, c01.U4[s]), iters=ms, draws=3 * ms + 2, weight=5 * 4 ** ms,
+        add(fn='randomize_graph_partial_und', kind='mask', n=4, sup=s, support=c01.und_from_edges(4, c01.U4[s]), iters=ms, draws=3 * ms + (2 if len(c01.U4[s]) <= 3 else 5), weight=5 * 4 ** ms,
             shard_depth=8 if ms >= 2 else None)
     return cs
 
